@@ -401,7 +401,9 @@ def main(args):
     for l, d in shapes:
         units.append(dict(kind='str', module='stdnum.util', L=l, D=d, **cap))
     intro = common.introspect()
-    mods = sorted(intro)
+    # (c) applies to formats that clean their input, i.e. modules exposing compact(); the generic check-digit algorithm
+    # modules validate caller-supplied strings over caller-supplied alphabets verbatim and have no clean-up step
+    mods = sorted(m for m in intro if 'compact' in intro[m]['functions'])
     if args.module:
         mods = [m for m in mods if m in args.module]
     elif tier == 'quick':
@@ -417,7 +419,7 @@ def main(args):
             u.update(dict(max_paths=1500, timeout=25, query_timeout_ms=5000) if tier == 'quick' else dict(max_paths=30000, timeout=300, query_timeout_ms=30000))
             units.append(u)
     for m in sorted(intro):
-        if args.module and m not in args.module:
+        if (args.module and m not in args.module) or 'compact' not in intro[m]['functions']:
             continue
         lits = intro[m]['valid']
         if tier == 'quick':
